@@ -450,8 +450,11 @@ class GridVariant(Variant):
         self.build_for = build_for
 
 
-def _coords(shape, dx, real_t):
-    axes = [((np.arange(n) + 0.5) * dx).astype(real_t) for n in shape]
+def _coords(shape, dx, real_t, origin=None):
+    """cell-centre coordinate fields; ``origin`` = per-array-axis offset of the domain start (the damping closed form only
+    depends on distances to the first/last cell centre of each axis, so it is offset-invariant)"""
+    origin = origin if origin is not None else [0.0] * len(shape)
+    axes = [(o + (np.arange(n) + 0.5) * dx).astype(real_t) for n, o in zip(shape, origin)]
     grids = np.meshgrid(*axes, indexing="ij")
     return grids[::-1]  # x grid first (x = last array axis)
 
@@ -461,7 +464,12 @@ def _build_damp(d, w, vector):
         import sopht.numeric.eulerian_grid_ops as spne
 
         dx = real_t(1.0 / shape[-1])
-        g = _coords(shape, float(dx), real_t)
+        # half of the cases: a different domain origin per axis (e.g. an axis centred about 0)
+        origin = None
+        if rng.random() < 0.5:
+            origin = [0.0] + [float(o) for o in rng.choice([-0.5 * shape[0] * float(dx), -3.2, 1.7, 0.25], size=d - 1)]
+            rng.shuffle(origin)
+        g = _coords(shape, float(dx), real_t, origin)
         kw = dict(width=w, dx=dx, x_grid_field=g[0], y_grid_field=g[1], real_t=real_t, num_threads=num_threads)
         if d == 3:
             kw["z_grid_field"] = g[2]
